@@ -205,6 +205,7 @@ class Rule(
         return self
 
     def assert_applies(self, evaluable: EvaluableArchitecture) -> None:
+        self._assert_anything_only_used_with_should_not()
         self._configuration = self._convert_aliases(self._configuration)
         self._assert_required_configuration_present()
 
@@ -297,6 +298,15 @@ class Rule(
         if (
             self._configuration.rule_object_anything
             and not self._configuration.should_not
+        ):
+            raise ImproperlyConfigured(
+                'The "anything" rule object can only be used with "should not".'
+            )
+
+    def _assert_anything_only_used_with_should_not(self) -> None:
+        # has to be checked before the alias is rewritten, as the rewrite clears the 'anything' marker
+        if self._configuration.rule_object_anything and (
+            self._configuration.should or self._configuration.should_only
         ):
             raise ImproperlyConfigured(
                 'The "anything" rule object can only be used with "should not".'
